@@ -57,8 +57,7 @@ func runC13(idx int, rng *rand.Rand, tier string) []Case {
 	}
 	smallTied := idx%4 == 2 && n <= 30
 	if smallTied {
-		// few results with repeated, exactly equal latencies: every sample is its own centroid in the
-		// latency digest, so even the estimated percentiles do not depend on the order of arrival
+		// few results with repeated, exactly equal latencies
 		for i := range all {
 			all[i].Latency = []time.Duration{time.Millisecond, 2 * time.Millisecond, 9 * time.Millisecond}[rng.Intn(3)]
 		}
@@ -161,7 +160,7 @@ func runC13(idx int, rng *rand.Rand, tier string) []Case {
 			return false
 		}
 		if strip {
-			a, b = canonReport(a, !smallTied), canonReport(b, !smallTied)
+			a, b = canonReport(a, true), canonReport(b, true) // estimated percentiles are not among the exact metrics
 		}
 		return bytes.Equal(a, b)
 	}
